@@ -360,7 +360,7 @@ def _nested_instances(f, terms, cap, depth=0):
     return []
 
 
-COUNTER_NAMES = ['model', 'loss', 'random.random', 'random.randrange', 'random.randint', 'np.random.permutation',
+COUNTER_NAMES = ['model', 'loss', 'random.random', 'random.randrange', 'random.randint', 'uniform_int', 'np.random.permutation',
                  'np.random.normal', 'random.choices', 'impute', 'storage_update']
 
 
